@@ -116,8 +116,8 @@ def dataset_bytes(which, curvature=None):
     if errors:
         raise InternalError('simdata dataset %d: %r' % (which, errors))
     if curvature is not None:
-        connection.execute('INSERT INTO curvature (curvature_m_km2) '
-                           'VALUES (?)', (curvature,))
+        import spowtd.set_curvature as set_curvature_mod
+        set_curvature_mod.set_curvature(connection, curvature)
         connection.commit()
     _DB[key] = connection.serialize()
     connection.close()
